@@ -231,7 +231,7 @@ func c07JWT(c *Ctx) {
 		c.RoleUnmatched(rule, "jwt-claims", "jwt.MapClaims.Valid")
 	}
 	// (iii) comparators
-	for _, cmp := range []struct{ name, want string }{{"verifyExp", "now<=x"}, {"verifyIat", "now>=x"}, {"verifyNbf", "now>=x"}} {
+	for _, cmp := range []struct{ name, want string }{{"verifyExp", "now<x"}, {"verifyIat", "now>=x"}, {"verifyNbf", "now>=x"}} {
 		fn := c.P.Func(pkgJWT + "." + cmp.name)
 		if fn == nil {
 			c.RoleUnmatched(rule, "jwt-comparator", pkgJWT+"."+cmp.name)
@@ -249,8 +249,10 @@ func c07JWT(c *Ctx) {
 				continue // absent claim: governed by 'required'
 			}
 			var want Fact
-			if cmp.want == "now<=x" {
-				want = Fact{atomLT(x, now), false}
+			if cmp.want == "now<x" {
+				// whole seconds: floor(now) <= exp would still honour the token during the
+				// second that follows its expiry instant (RFC 7519 4.1.4: now MUST be before exp)
+				want = Fact{atomLT(now, x), true}
 			} else {
 				want = Fact{atomLT(now, x), false}
 			}
